@@ -293,8 +293,13 @@ bool cmb_event_execute_next(void)
         return false;
     }
 
-    /* Pull off the next event and decode it */
-    struct event_peek *tmp = (struct event_peek *)cmi_hashheap_dequeue(event_queue);
+    /*
+     * Pull off the next event and decode it. Take a copy, the location in the
+     * heap array is only valid until something is scheduled: Waking the
+     * processes waiting for this event may grow (and move) the array.
+     */
+    struct event_peek ev = *(struct event_peek *)cmi_hashheap_dequeue(event_queue);
+    struct event_peek *tmp = &ev;
 
     /* Advance clock to time of the next event */
     const double new_time = event_queue->heap[0].dsortkey;
